@@ -530,10 +530,17 @@ func (z *BigInt) Div(x, y *BigInt) *BigInt {
 func (z *BigInt) DivMod(x, y, m *BigInt) (*BigInt, *BigInt) {
 	var tmp1, tmp2, tmp3, tmp4 big.Int //gcassert:noescape
 	zi := z.inner(&tmp1)
-	mi := m.inner(&tmp2)
 	// NOTE: innerOrAlias for the y param because (big.Int).DivMod needs to
 	// detect when y is aliased to the receiver.
-	zi.DivMod(x.inner(&tmp3), y.innerOrAlias(&tmp4, z, zi), mi)
+	yi := y.innerOrAlias(&tmp4, z, zi)
+	// NOTE: and for the m param because two results stored in one object, or
+	// a result stored in y, must be one object to math/big as well: what it
+	// leaves there depends on the order of its assignments.
+	mi := m.innerOrAlias(&tmp2, z, zi)
+	if m == y {
+		mi = yi
+	}
+	zi.DivMod(x.inner(&tmp3), yi, mi)
 	z.updateInner(zi)
 	m.updateInner(mi)
 	return z, m
@@ -561,11 +568,25 @@ func (z *BigInt) GCD(x, y, a, b *BigInt) *BigInt {
 	var tmp1, tmp2, tmp3, tmp4, tmp5 big.Int //gcassert:noescape
 	zi := z.inner(&tmp1)
 	ai := a.inner(&tmp2)
-	bi := b.inner(&tmp3)
-	xi := x.innerOrNil(&tmp4)
-	// NOTE: innerOrNilOrAlias for the y param because (big.Int).GCD needs to
-	// detect when y is aliased to b. See "avoid aliasing b" in lehmerGCD.
+	// NOTE: results that are stored in one object (a cofactor in the receiver,
+	// both cofactors in one BigInt) must be one object to math/big as well:
+	// which of them survives depends on the order of its assignments. Hence
+	// innerOrAlias for every parameter that can be the same object as a result.
+	bi := b.innerOrAlias(&tmp3, z, zi)
+	xi := x.innerOrNilOrAlias(&tmp4, z, zi)
+	if x != nil && x != z && x == b {
+		xi = bi
+	}
+	// NOTE: innerOrNilOrAlias for the y param also because (big.Int).GCD needs
+	// to detect when y is aliased to b. See "avoid aliasing b" in lehmerGCD.
 	yi := y.innerOrNilOrAlias(&tmp5, b, bi)
+	if y != nil && y != b {
+		if y == z {
+			yi = zi
+		} else if y == x {
+			yi = xi
+		}
+	}
 	zi.GCD(xi, yi, ai, bi)
 	z.updateInner(zi)
 	if xi != nil {
@@ -802,7 +823,9 @@ func (z *BigInt) QuoRem(x, y, r *BigInt) (*BigInt, *BigInt) {
 	}
 	var tmp1, tmp2, tmp3, tmp4 big.Int //gcassert:noescape
 	zi := z.inner(&tmp1)
-	ri := r.inner(&tmp2)
+	// NOTE: innerOrAlias for the r param: when both results are stored in one
+	// object, math/big must see one object too (it stores the remainder last).
+	ri := r.innerOrAlias(&tmp2, z, zi)
 	zi.QuoRem(x.inner(&tmp3), y.inner(&tmp4), ri)
 	z.updateInner(zi)
 	r.updateInner(ri)
